@@ -66,7 +66,7 @@ def run(ctx):
                    evaluations=nalias + nconc, distinct_nontrivial=nalias + nconc,
                    rule="one evaluation = one caller-side mutation bracketed by two full observations, or one 12-goroutine first-observation burst; "
                         "distinct = distinct (subject, mutation step)",
-                   mutation_steps=len(steps), alias_cases=nalias, concurrent_bursts=nconc, data_races=nraces, exhaustive=False,
+                   samples=[json.loads(lines[i]) for i in (0, nalias // 2, len(lines) - 1)], mutation_steps=len(steps), alias_cases=nalias, concurrent_bursts=nconc, data_races=nraces, exhaustive=False,
                    checker_cmd="tlc LazyBody; vh c12 --parts alias; vh-race c12 --parts conc; tlc OracleAlias")
     ctx.assumptions += ["goroutine interleavings are sampled by the Go scheduler under the race detector, not enumerated; the model covers all interleavings of the Once protocol",
                         "DecodeOwned* entry points take ownership of the buffer by contract and are not mutated"]
